@@ -31,6 +31,9 @@ def mk(kind, seed):
                             prefix=rng.choice(["s", "q"]), total=rng.random() < 0.3)
     if kind == "nfa2":
         return U.random_nfa(rng, rng.randint(1, 3), "ab", eps="ε", prefix="u")
+    if kind == "nfa_q":
+        # states named like the default generator's proposals (q0, q1, ...)
+        return U.random_nfa(rng, rng.randint(2, 4), "ab", eps="ε", prefix="q")
     if kind == "nfa1":
         return U.random_nfa(rng, rng.randint(1, 3), "ab", eps="ε", prefix="v")
     if kind == "re":
@@ -117,6 +120,9 @@ def ops_table():
         "nfa_repetition": (["nfa2"], U1(na.nfa_repetition), "fa"),
         "nfa_union": (["nfa2", "nfa1"], lambda A, B, s: na.nfa_union(A, B), "fa"),
         "nfa_concatenation": (["nfa2", "nfa1"], lambda A, B, s: na.nfa_concatenation(A, B), "fa"),
+        "nfa_union/qnames": (["nfa2", "nfa_q"], lambda A, B, s: na.nfa_union(A, B), "fa"),
+        "nfa_union/qnames2": (["nfa_q", "nfa2"], lambda A, B, s: na.nfa_union(A, B), "fa"),
+        "nfa_repetition/qnames": (["nfa_q"], U1(na.nfa_repetition), "fa"),
         "print_nfa": (["nfa2"], U1(na.print_nfa), "text"),
         "regexp_simplify": (["re"], U1(ra.regexp_simplify), "re"),
         "regexp_accepts_word": (["re"], lambda r, s: ra.regexp_accepts_word(r, word_for(None, s)), V),
@@ -183,10 +189,38 @@ def snapshot(args):
     return [ab.project(a)["v"] for a in args]
 
 
+def warm_up(args):
+    """read-only queries on the arguments before the call under test (another kind of history: a
+    defaultdict read materialises empty entries, caches get filled)"""
+    import gambatools.nfa_algorithms as na
+    import gambatools.dfa_algorithms as da
+    import gambatools.cfg_algorithms as ca
+    import gambatools.pda_algorithms as pa
+    from gambatools.nfa import NFA
+    from gambatools.dfa import DFA
+    from gambatools.cfg import CFG
+    from gambatools.pda import PDA
+    for a in args:
+        try:
+            if isinstance(a, NFA):
+                na.nfa_accepts_word(a, "".join(sorted(a.Sigma))[:2])
+                na.nfa_words_up_to_n(a, 2)
+            elif isinstance(a, DFA):
+                da.dfa_words_up_to_n(a, 2)
+            elif isinstance(a, CFG):
+                ca.cfg_accepts_word(a, "a")
+            elif isinstance(a, PDA):
+                pa.pda_accepts_word(a, "a")
+        except Exception:
+            pass
+
+
 def run_case(case, table, logging):
     from gambatools.global_settings import GambaTools
     kinds, fn, rkind = table[case["opname"]]
     args = [mk(k, case["seed"] + 17 * i) for i, k in enumerate(kinds)]
+    if case["seed"] % 2 == 0:
+        warm_up(args)
     before = snapshot(args)
     GambaTools.enable_logging = logging
     GambaTools.pda_epsilon_closure_max_iterations = 60
@@ -211,7 +245,7 @@ def run_case(case, table, logging):
 def case_list(seed, n):
     names = sorted(ops_table().keys())
     # operations whose VALUE could depend on a set-iteration order get more cases
-    heavy = [x for x in names if x.startswith("dfa_isomorphic") or x in ("dfa_to_regexp", "nfa_to_dfa", "dfa_hopfcroft",
+    heavy = [x for x in names if x.startswith("dfa_isomorphic") or "/qnames" in x or x in ("dfa_to_regexp", "nfa_to_dfa", "dfa_hopfcroft",
                                                                           "dfa_minimize", "cfg_eliminate_unit_rules")]
     names = names + heavy * 4 + [x for x in names if "/pairs" in x] * 25
     rng = random.Random(seed)
